@@ -19,7 +19,8 @@ RULE = ('A base deck from the mixed generators (level-0 Boolean decks, '
         'columns); continuation lines at any existing blank by >= 5 leading '
         'blanks (or a tab) or a trailing ampersand; full-line c comments '
         'between and inside cards and in-line $ comments; a leading message '
-        'block; number spellings (Python-compatible: 1.50, +1.5, 15e-1, .5 / '
+        'block; blanks / tabs after the last entry of a line, blank-only '
+        'delimiter lines and CRLF line ends; number spellings (Python-compatible: 1.50, +1.5, 15e-1, .5 / '
         'Fortran-only: 1.5+0, 1.5d0, labelled separately); data-card '
         'shorthand (nR in IMP cards and FILL arrays, nJ vs J J in TR cards) '
         'versus its expansion. Oracle: the two written files have identical '
@@ -64,6 +65,8 @@ def fmt_case(draw, tier='quick'):
         labels.add('imp:data')
     spec = {k: draw(st.booleans()) for k in REWRITES}
     spec['num'] = draw(st.sampled_from([None, 'python', 'python', 'fortran']))
+    spec['eol'] = draw(st.sampled_from([None, None, 'trailing-blanks', 'crlf',
+                                        'both']))
     spec['num_scope'] = draw(st.sampled_from(['all', 'c', 's', 'd']))
     spec['bits'] = draw(st.lists(st.integers(0, 11), min_size=8,
                                  max_size=40))
@@ -184,7 +187,23 @@ def render_pair(case):
     vdeck, applied = variant_deck(case)
     lay = layouts.VariedLayout(case['spec'])
     var = mr.render(vdeck, layout=lay, expr_style=case.get('style'))
-    return base, var, applied | lay.applied
+    applied = applied | lay.applied
+    eol = case['spec'].get('eol')
+    if eol:
+        bits = case['spec'].get('bits') or [0]
+        lines = var.split('\n')
+        if eol in ('trailing-blanks', 'both'):
+            # blanks (and tabs) after the last entry of a line, and delimiter
+            # lines made of blanks only
+            tails = ['', ' ', '   ', ' \t', '']
+            lines = [ln + tails[(bits[k % len(bits)] + k) % len(tails)]
+                     if len(ln) < 70 else ln for k, ln in enumerate(lines)]
+            applied.add('trailing-blanks')
+        var = '\n'.join(lines)
+        if eol in ('crlf', 'both'):
+            var = var.replace('\n', '\r\n')
+            applied.add('crlf')
+    return base, var, applied
 
 
 def render_case(case):
